@@ -1380,6 +1380,78 @@ class TrContent(Tr):
         return super().stmt0(s, ind)
 
 
+class TrInsertWhole(TrContent):
+    """`DcmMetaExtension._insert` as a whole.  `other` is its nested dictionaries `other_content : Content κ α` (as `TrContent`),
+    `self` the per-key view `kc : KContent κ α` (key ↦ the classification dictionaries seen from that key, the `KeyDict` the
+    per-key methods are translated over).  The two loops `for key in other_keys` are the translated `reclassify` and
+    `insert_dispatch` applied to the entry of `key` (their bodies are the statements those two functions are translated
+    from — checked); `other.get_values_and_class(key)`, which the insertion methods start with, is
+    `Content.valuesAndClass` on `other_content`.  The comparison of the slice normals is the parameter `use_slices`.
+    The result is the pair of what `self` holds afterwards (or the exception of the `try` block) and what `other` holds"""
+
+    def class_expr(self, n):
+        if isinstance(n, ast.Call) and self.src(n.func) == 'other.get_class_dict' and len(n.args) == 1:
+            return self.atom(n.args[0])
+        if isinstance(n, ast.Subscript) and isinstance(n.value, ast.Subscript) and self.src(n.value.value) == 'other._content':
+            a, b = n.value.slice, n.slice
+            if isinstance(a, ast.Subscript) and isinstance(b, ast.Subscript) and self.src(a.value) == self.src(b.value) \
+                    and self.src(a.slice) == '0' and self.src(b.slice) == '1':
+                return self.atom(a.value)
+        return None
+
+    def e(self, n):
+        src = self.src(n)
+        if src == '(tried_, other_content)':
+            return '(tried_, other_content)'
+        if src == 'kc':
+            return 'kc'
+        if src == 'set(other.get_keys())':
+            return '(← get_keys other_shape other_content)'
+        if src == '[key for key in self.get_keys() if key not in other_key_set]':
+            return '((KContent.keys (← get_valid_classes self_shape) kc).filter fun key => !(other_key_set).contains key)'
+        if isinstance(n, ast.Call) and isinstance(n.func, ast.Name) and n.func.id == 'list' and len(n.args) == 1:
+            return self.e(n.args[0])
+        if isinstance(n, ast.Subscript) and self.src(n.value) == 'other_slc_meta':
+            return '(dictGet other_slc_meta %s)' % self.atom(n.slice)
+        if isinstance(n, ast.Dict) and not n.keys:
+            return '[]'
+        return super().e(n).replace('dictGet content ', 'dictGet other_content ')
+
+    def stmt0(self, s, ind):
+        src = self.src(s)
+        if isinstance(s, ast.Assign) and len(s.targets) == 1:
+            t = s.targets[0]
+            if isinstance(t, ast.Subscript) and self.src(t.value) == 'other_slc_meta':
+                return ['%sother_slc_meta := dictSet other_slc_meta %s %s' % (ind, self.atom(t.slice), self.atom(s.value))]
+            c = self.class_expr(t)
+            if c is not None:
+                return ['%sother_content := dictSet other_content %s %s' % (ind, c, self.atom(s.value))]
+        if isinstance(s, ast.For) and self.src(s.iter) == 'other_keys' and self.src(s.target) == 'key' and not s.orelse:
+            first = self.src(s.body[0])
+            if first.startswith('local_classes = self.get_classification(key)') and self.body_text(s.body) == self.reclassify_text:
+                return ['%sfor key in other_keys do' % ind,
+                        '%s  kc := KContent.set kc key (← reclassify null self_shape self_n_slices (KContent.get kc key) bases other_classes)' % ind]
+            if len(s.body) == 1 and isinstance(s.body[0], ast.If) and self.src(s.body[0].test) == 'dim == self.slice_dim' \
+                    and self.body_text(s.body) == self.dispatch_text:
+                return ['%sfor key in other_keys do' % ind,
+                        '%s  let ov_ := Content.valuesAndClass (← get_valid_classes other_shape) other_content key' % ind,
+                        '%s  kc := KContent.set kc key (← insert_dispatch null self_shape self_n_slices (KContent.get kc key) self_slice_dim bases '
+                        'other_shape other_n_slices (match ov_ with | some p_ => p_.2 | none => [null]) (ov_.map (·.1)) dim)' % ind]
+            raise Unsupported('a loop over other_keys that is neither the reclassification nor the insertion loop')
+        if isinstance(s, ast.Try) and s.finalbody and not s.handlers and not s.orelse:
+            # try: B finally: F — B is the separately translated `insert_try` (it edits `kc`, what `self` holds, and yields it or
+            # the exception); F runs either way; the function returns both, so that what F restores is visible on the exception path
+            out = ['%slet tried_ : Except PyErr (KContent κ α) := insert_try null self_shape self_n_slices self_slice_dim bases kc '
+                   'other_shape other_n_slices other_content dim' % ind]
+            out += self.block(s.finalbody, ind)
+            return out
+        return super().stmt0(s, ind)
+
+    @staticmethod
+    def body_text(stmts):
+        return '\n'.join(ast.unparse(x) for x in stmts)
+
+
 class TrChkOrder(Tr):
     """the thorough check of `_chk_order`: `_files_info[i][1]` is the sorting tuple (vector, time, position)"""
     PROJ = {0: '.1', 1: '.2.1', 2: '.2.2'}
@@ -1557,6 +1629,17 @@ def dictDel {κ' β : Type} [DecidableEq κ'] (d : List (κ' × β)) (k : κ') :
 /-- `DcmMetaExtension._content` without its top-level entries: classification ↦ dictionary key ↦ values, both in insertion order -/
 abbrev Content (κ α : Type) := List (Cls × List (κ × List α))
 
+/-- the classification dictionaries of an extension seen key by key: key ↦ the classifications holding it, with the values -/
+abbrev KContent (κ α : Type) := List (κ × KeyDict α)
+def KContent.get {κ α : Type} [DecidableEq κ] (kc : KContent κ α) (k : κ) : KeyDict α := dictGet kc k
+def KContent.set {κ α : Type} [DecidableEq κ] (kc : KContent κ α) (k : κ) (d : KeyDict α) : KContent κ α := dictSet kc k d
+/-- `get_keys()`: the keys some valid classification holds -/
+def KContent.keys {κ α : Type} (valid : List Cls) (kc : KContent κ α) : List κ :=
+  (kc.filter fun p => (KeyDict.valuesAndClass valid p.2).isSome).map (·.1)
+/-- `get_values_and_class(key)` on the nested dictionaries: the first valid classification whose dictionary has the key -/
+def Content.valuesAndClass {κ α : Type} [DecidableEq κ] (valid : List Cls) (content : Content κ α) (k : κ) : Option (Cls × List α) :=
+  valid.findSome? fun c => ((dictGet content c).find? fun p => p.1 == k).map fun p => (c, p.2)
+
 /-- `a // b` of naturals: `ZeroDivisionError` for a zero divisor -/
 def pyFloorDiv (a b : Nat) : Except PyErr Nat := if b == 0 then .error PyErr.zeroDivision else .ok (a / b)
 
@@ -1574,6 +1657,7 @@ GROUP_OF = {
     'get_const_period': 'simplify', '_get_const_period': 'simplify', 'is_constant': 'simplify', 'is_repeating': 'simplify', 'simplify': 'simplify',
     'meta_valid': 'lookup', 'get_meta_index': 'lookup', 'get_meta': 'lookup',
     'check_valid': 'valid',
+    'insert_whole': 'insertall', 'insert_try': 'insertall',
     'get_keys': 'content', 'filter_meta': 'content', 'clear_slice_meta': 'content',
     'subset_shape': 'shapes', 'merge_shape': 'shapes',
     'split_specs': 'wrapsplit', 'split_trim': 'wrapsplit',
@@ -1617,6 +1701,7 @@ GROUP_IMPORTS = {
     'cli': ['DcmVerif.Generated.PyPrelude', 'DcmVerif.Model.Cli'],
     'extract': ['DcmVerif.Generated.PyPrelude', 'DcmVerif.Model.Extract'],
     'content': ['DcmVerif.Generated.Code_classes'],
+    'insertall': ['DcmVerif.Generated.Code_insert', 'DcmVerif.Generated.Code_content'],
 }
 GEN_DIR = os.environ.get('GEN_CODE_DIR', os.path.normpath(os.path.join(HERE, '..', 'lean', 'DcmVerif', 'Generated')))
 
@@ -2060,6 +2145,57 @@ def translate():
              'which insertion `DcmMetaExtension._insert(dim, other)` applies to one key (dcmmeta.py, body of its second loop over the '
              'keys of `other`): along the slice axis, another spatial axis, time, vector — and nothing for any other `dim`',
              prologue=['let mut d_ := d'])
+    # ---- _insert as a whole (group `insertall`)
+    f = find_func(dm, 'DcmMetaExtension', '_insert')
+    body1 = body2 = None
+    if f is not None:
+        for node in ast.walk(f):
+            if isinstance(node, ast.For) and node.body and ast.unparse(node.body[0]).startswith('local_classes = self.get_classification(key)'):
+                body1 = node.body
+            if isinstance(node, ast.For) and len(node.body) == 1 and isinstance(node.body[0], ast.If) \
+                    and ast.unparse(node.body[0].test) == 'dim == self.slice_dim':
+                body2 = node.body
+    if f is None or body1 is None or body2 is None:
+        missing.append('insert_whole: _insert or its two loops not found')
+    else:
+        tr = TrInsertWhole({'self.slice_dim': 'self_slice_dim'},
+                           {'other.get_valid_classes()': 'get_valid_classes other_shape'}, cls_vars=['classes', 'other_classes'])
+        tr.reclassify_text = TrInsertWhole.body_text(body1)
+        tr.dispatch_text = TrInsertWhole.body_text(body2)
+        tr.list_vars = {'other_keys', 'missing_keys'}
+        tr.stmt_map = {'use_slices = self_slc_norm is not None and other_slc_norm is not None and np.allclose(self_slc_norm, other_slc_norm)': [],
+                       'other_slc_meta = {}': ['let mut other_slc_meta : Content κ α := []']}
+        tr.stmt_map_declares = {'other_slc_meta = {}': ['other_slc_meta']}
+        tr.pre_declared = {'kc', 'other_content'}
+        tr.force_mutable = {'other_keys'}
+        try_stmt = next((st for st in f.body if isinstance(st, ast.Try) and st.finalbody and not st.handlers and not st.orelse), None)
+        if try_stmt is None:
+            missing.append('insert_try: no try / finally statement in _insert')
+        else:
+            tr_try = TrInsertWhole({'self.slice_dim': 'self_slice_dim'},
+                                   {'other.get_valid_classes()': 'get_valid_classes other_shape'}, cls_vars=['classes', 'other_classes'])
+            tr_try.reclassify_text, tr_try.dispatch_text = tr.reclassify_text, tr.dispatch_text
+            tr_try.list_vars = {'other_keys', 'missing_keys'}
+            tr_try.pre_declared = {'kc'}
+            tr_try.force_mutable = {'other_keys'}
+            emit('insert_try', '{κ α : Type} [DecidableEq κ] [DecidableEq α] (null : α) (self_shape : List Nat) (self_n_slices : Option Nat) '
+                 '(self_slice_dim : Option Nat) (bases : List String) (kc0 : KContent κ α) (other_shape : List Nat) (other_n_slices : Option Nat) '
+                 '(other_content : Content κ α) (dim : Nat) : Except PyErr (KContent κ α)',
+                 try_stmt.body + [ast.parse('return kc').body[0]], tr_try,
+                 'the `try` block of `DcmMetaExtension._insert(dim, other)` (dcmmeta.py): the keys only `self` has are handled with the '
+                 'constant class of `other`; per classification of `other`, first the reclassification and then the insertion of '
+                 'every key. `other_content` is what `other` holds while the block runs',
+                 prologue=['let mut kc := kc0'])
+        emit('insert_whole', '{κ α : Type} [DecidableEq κ] [DecidableEq α] (null : α) (self_shape : List Nat) (self_n_slices : Option Nat) '
+             '(self_slice_dim : Option Nat) (bases : List String) (kc0 : KContent κ α) (other_shape : List Nat) (other_n_slices : Option Nat) '
+             '(other0 : Content κ α) (use_slices : Bool) (dim : Nat) : Except PyErr (Except PyErr (KContent κ α) × Content κ α)',
+             f.body + [ast.parse('return (tried_, other_content)').body[0]], tr,
+             '`DcmMetaExtension._insert(dim, other)` (dcmmeta.py) as a whole: the per-slice dictionaries of `other` put aside when the '
+             'slice normals differ and put back at the end, the keys only `self` has handled with the constant class of `other`, and '
+             'per classification of `other` first the reclassification and then the insertion of every key. The result is what `self` '
+             'holds afterwards — or the exception the `try` block ended with — together with what `other` holds afterwards (the '
+             '`finally` block runs either way); an exception outside the `try` block is the outer error',
+             prologue=['let kc := kc0', 'let mut other_content := other0'])
     # ---- per-key dictionary edits of subsets (group `subset`): _copy_slice, _copy_sample for one key of `other`
     def per_key(stmts):
         """the body of the method for one key: loops over the keys of `src_dict` are replaced by their bodies"""
